@@ -74,7 +74,7 @@ add("C19", "TestC19", "exploration",
     "Trusted: the rendering grammar of openacid/low/tree (#id, =value). Label text is not asserted.", RAPID, "DESIGN.md §4 C19")
 
 add("C04", "TestC04", "exploration",
-    dict(cases=12000, shards=8), dict(cases=60000, shards=16, timeout_s=3000),
+    dict(cases=12000, shards=8), dict(cases=200000, shards=16, timeout_s=3000, fuzz=dict(target="FuzzC04", seconds=180)),
     "Complete tries (fresh, reloaded, loaded from generated 0.5.10/0.5.11 allpref streams; all encoders incl. String16) x drawn scans (API ScanFrom/ScanFromTo/NewIter, start and end from Q(keys) or drawn, both inclusivities, with/without values, callback stop point) + a sweep with every string of Q(keys) as start + full scans; refusal clause: every non-Complete effective mode x dedup x with/without values (12 classes, counted); non-trivial = a scan that yields >= 3 entries from an absent or exclusive start on a trie with a stored inner prefix or a 257-bit node (refusal: >= 2 keys and >= 1 step)",
     "Generated-input search: each scan must yield exactly the model's slice of retained entries (keys bytewise, each once, ascending, value bytes equal to the independent reference encoding, nil when not requested/supplied), invoke the callback exactly once per entry, stop at the stop point, and report exhaustion on 3 further calls. On a non-Complete trie a scan must panic before yielding anything, or yield exactly the model's answer (possible only when the trie happens to hold complete keys).",
     "Trusted: reference model, reference value encodings, legacy 0.5.10 writer (validated against the archive).", RAPID, "DESIGN.md §4 C04")
@@ -130,8 +130,9 @@ add("C15", "TestC15", "exploration",
     "exhaustive enumeration of small integer domains + property-based testing (rapid) with an independent reference encoder", "DESIGN.md §4 C15")
 
 add("C16", "TestC16", "exploration",
-    dict(cases=40000, shards=8), dict(cases=200000, shards=16, timeout_s=3000),
-    "ascending index sets in [0, 2^20) (empty, single, dense runs, sparse, clusters separated by empty 64-bit words, word-boundary indexes) x element kinds U16/U32/U64/I16/I32/I64 (edge and random values) and a fixed-size struct via array.New; probes = every index of the span when span <= 4096, else listed +-1, word boundaries and drawn; 1/3 invalid inputs (equal/descending neighbours at a drawn position, length off by 1..5); non-trivial = an empty bitmap word between populated words (or an invalid input)",
+    dict(cases=40000, shards=8, extra=[dict(test="TestC16Exhaustive", shards=8)]),
+    dict(cases=400000, shards=16, timeout_s=3000, extra=[dict(test="TestC16Exhaustive", shards=16, timeout_s=3000)]),
+    "exhaustive: every index set of <= 3 elements within 2-3 bitmap words and every 2-element set within 5 words, every index of the span probed; rapid: ascending index sets in [0, 2^20) (empty, single, dense runs, sparse, clusters separated by empty 64-bit words, word-boundary indexes) x element kinds U16/U32/U64/I16/I32/I64 (edge and random values) and a fixed-size struct via array.New; probes = every index of the span when span <= 4096, else listed +-1, word boundaries and drawn; 1/3 invalid inputs (equal/descending neighbours at a drawn position, length off by 1..5); non-trivial = an empty bitmap word between populated words (or an invalid input)",
     "Generated-input search against a map[int32]T model: typed Get, raw GetBytes and generic Get agree with the model at every probe within the bitmap span, also after proto.Marshal -> proto.Unmarshal into the typed type and into array.NewEmpty(T); invalid input is rejected with the dedicated error, builds nothing, and a rejected Init leaves an existing array unchanged.",
     "Trusted: the map model. Probes beyond the bitmap span are not claimed (accessors index out of range there by design).",
     RAPID.replace("sorted-map", "map[int32]T"), "DESIGN.md §4 C16")
